@@ -82,18 +82,38 @@ def build_arch(var):
 
 
 # ---------------------------------------------------------------------------------------------------------------
-PROVISIONAL = []          # proposed known-finding entries (none on the pinned tree)
+# proposed known-finding entries (to be moved into known_findings.json by the coordinator, or dropped once /repo is repaired)
+PROVISIONAL = [dict(
+    property="C15", status="known", id="Farch1",
+    key=dict(impl="celt_fir_sse4_1", site="celt/x86/celt_lpc_sse4_1.c: _mm_packs_epi32 / SATURATE16 where celt_fir_c uses SROUND16"),
+    what=("fixed-point build, arch levels 3/4: celt_fir_sse4_1 saturates its output to [-32768, 32767] while the portable celt_fir_c saturates to [-32767, 32767] "
+          "(SROUND16): the two differ (-32768 against -32767) whenever the filtered sample hits the negative rail - reached by the decoder's packet-loss concealment "
+          "(LPC analysis of the excitation) on hard-clipped / full-scale input, after which the decoded PCM at levels 3/4 differs from levels 0-2"))]
 
 
 def known_entries():
-    return vf.known_findings("C15") + PROVISIONAL
+    ids = set()
+    out = []
+    for en in vf.known_findings("C15") + PROVISIONAL:
+        if en.get("id") not in ids:
+            ids.add(en.get("id"))
+            out.append(en)
+    return out
 
 
-def match_known(ev):
-    """a known-finding key names fields of the rejected event (equality)"""
+def match_known(ev, j=None):
+    """Farch1 (celt_fir_sse4_1 saturation): a kernel case / in-situ summary of that implementation, or - in a fixed-point build whose run recorded such kernel
+    differences - a decoder twin whose PCM (not its final range) differs after a concealed frame.  Whether the event is exactly that finding and nothing
+    else is then decided by TLC with TolerateFirSat = TRUE (every differing sample is -32767 against -32768; only pairs of levels that select different
+    celt_fir implementations are excused)."""
     for en in known_entries():
         key = en.get("key", {})
-        if key and all(ev.get(k) == v for k, v in key.items() if k != "site"):
+        impl = key.get("impl")
+        if not impl:
+            continue
+        if ev.get("k") in ("kc", "is") and ev.get("impl") == impl:
+            return en
+        if ev.get("k") == "dec" and j is not None and j.variant.startswith("hkfix") and ev.get("clean") == 0 and getattr(j, "fir_neq", 0) > 0:
             return en
     return None
 
@@ -154,7 +174,11 @@ def history_line(i, h, rng):
     run = max(2, min(40, int(round(200.0 / dq))))          # runs of about 100 ms
     if rng.random() < 0.3:
         run = max(2, run // 2)
-    return "H %d %d %d %d %d %d %d %d %d %d %d %d | %s" % (i, app, fs, ch, cx, br, br2, fec, dq, vbr, run, rng.randrange(1, 1 << 30), " ".join(toks))
+    # signal family: 0 speech-like; 1 full-scale square waves, 2 hard-clipped noise, 3 alternating +-32767 at Nyquist/2 and /4 (they drive
+    # band energies into saturation); 4 float input with NaN / Inf / huge samples (float build only, speech-like elsewhere)
+    u = rng.random()
+    sig = 0 if u < 0.72 else 1 if u < 0.79 else 2 if u < 0.86 else 3 if u < 0.93 else 4
+    return "H %d %d %d %d %d %d %d %d %d %d %d %d %d | %s" % (i, app, fs, ch, cx, br, br2, fec, dq, vbr, run, rng.randrange(1, 1 << 30), sig, " ".join(toks))
 
 
 # hand-written histories: long streams, several switches, loss bursts, every duration with SILK-only / hybrid / CELT-only rates
@@ -176,9 +200,29 @@ def directed_lines(start):
             (2049, 48000, 2, 10, 510000, 6000, 0, 40, 0, 8, "o s o l o"),
             (2048, 24000, 2, 6, 18000, 30000, 1, 120, 2, 4, "o f s o f o l o"),
             (2048, 16000, 2, 3, 14000, 36000, 1, 40, 1, 12, "o s o s o s o l f o")]:
-        out.append("H %d %d %d %d %d %d %d %d %d %d %d %d | %s" % (i, app, fs, ch, cx, br, br2, fec, dq, vbr, run, 1000 + i, toks))
+        out.append("H %d %d %d %d %d %d %d %d %d %d %d %d 0 | %s" % (i, app, fs, ch, cx, br, br2, fec, dq, vbr, run, 1000 + i, toks))
         i += 1
+    # sustained extreme signals (>= 30 frames of 20 ms; 10 ms and 60 ms too) on the speech layer at 8/12/16 kHz internal rate and on the
+    # transform layer: full-scale square waves, hard-clipped noise, alternating +-32767; float input with NaN / Inf / huge samples
+    for (app, fs, ch, cx, br, br2, dq, run) in [(2048, 16000, 1, 10, 24000, 32000, 40, 10), (2048, 16000, 1, 0, 20000, 16000, 40, 10),
+                                                  (2048, 12000, 1, 5, 18000, 24000, 40, 10), (2048, 48000, 1, 8, 20000, 28000, 40, 10),
+                                                  (2048, 16000, 2, 2, 30000, 40000, 40, 10), (2049, 16000, 1, 10, 16000, 24000, 40, 10),
+                                                  (2048, 8000, 1, 10, 12000, 16000, 40, 10), (2048, 16000, 1, 7, 24000, 20000, 120, 4),
+                                                  (2048, 24000, 1, 9, 22000, 26000, 20, 20), (2049, 48000, 2, 10, 96000, 64000, 40, 8),
+                                                  (2051, 48000, 1, 5, 64000, 128000, 10, 30)]:
+        for sig in (1, 2, 3, 4):
+            out.append("H %d %d %d %d %d %d %d 0 %d 1 %d %d %d | o o o s o" % (i, app, fs, ch, cx, br, br2, dq, run, 2000 + i, sig))
+            i += 1
     return out
+
+
+def sig0(line):
+    """the same history with the speech-like signal family"""
+    head, bar, toks = line.partition("|")
+    f = head.split()
+    if len(f) >= 14:
+        f[13] = "0"
+    return " ".join(f) + " |" + toks
 
 
 class Job:
@@ -207,12 +251,12 @@ def replay_text_of(j, ev_line=None, hist_id=None):
     return "V %s\n%s\n" % (j.variant, "\n".join(ln if ln else j.lines))
 
 
-def judge_file(ctx, j, path, what):
+def judge_file(ctx, j, path, what, cfg="ArchTrace.cfg"):
     """TLC judges one event file; returns (accepted, rejected line number, event dict or None)"""
     n = vf.count_lines(path)
     if n == 0:
         return True, None, None
-    acc, rej, r = vf.validate_seq(ctx, "ArchTrace", "ArchTrace.cfg", path, what, heap="3g")
+    acc, rej, r = vf.validate_seq(ctx, "ArchTrace", cfg, path, what, heap="3g")
     if acc and r.distinct != n + 1:
         raise vf.Infra("%s: TLC walked %d states for %d events" % (what, r.distinct, n))
     ev = None
@@ -262,21 +306,31 @@ def scan(ctx, j):
                 if k == "new":
                     cur = e
                     nh += 1
+                    if e.get("sig"):
+                        OBS["extreme_signal_histories"] += 1
                     if e["top"] >= 3:
                         ctx.nontrivial.add(hash(("h", j.variant, ln)))
                 elif k == "kc":
                     ctx.nontrivial.add(hash(("k", e["impl"], e["fx"], e["mode"], tuple(e["shape"]))))
                     o = OBS["kernels"].setdefault("%s/%s" % (e["impl"], "fix" if e["fx"] else "flt"), dict(cases=0, worst_r_over_bound_permille=0))
                     o["cases"] += 1
-                    if e.get("cls") == "flt":
-                        b = (2 * e["n"] + 4) * (8 if e["kern"] == "comb_filter_const_inplace" else 1)
+                    if e.get("cls") == "flt" and e.get("nf"):
+                        OBS["float_kernel_cases_with_nonfinite_data"] += 1
+                    elif e.get("cls") == "flt":
+                        b = 2 * e["n"] + 4
                         o["worst_r_over_bound_permille"] = max(o["worst_r_over_bound_permille"], int(1000 * e["r"] / b))
+                    elif e.get("cls") == "pvq" and e["deg"] == 1:
+                        OBS["pvq_degenerate_cases"] += 1
+                        OBS["pvq_degenerate_projected_cases"] += e["proj"]
+                        OBS["pvq_degenerate_unprojected_vectors_differ"] += 0 if (e["same"] or e["proj"]) else 1
                     elif e.get("cls") == "pvq" and not e["deg"]:
                         o["worst_r_over_bound_permille"] = max(o["worst_r_over_bound_permille"], int(1000 * max(0, e["qc"] - e["qs"]) / 100000))
                         OBS["pvq_worst_quality_loss_ppm"] = max(OBS["pvq_worst_quality_loss_ppm"], e["qc"] - e["qs"])
                         OBS["pvq_cases"] += 1
                         OBS["pvq_vectors_differ"] += 0 if e["same"] else 1
                 elif k == "is":
+                    if e["impl"] == "celt_fir_sse4_1":
+                        j.fir_neq = getattr(j, "fir_neq", 0) + e["neq"]
                     s = OBS["insitu"].setdefault("%s/%s/%s" % (e["impl"], "fix" if e["fx"] else "flt", e["mode"]), dict(compared=0, differ=0))
                     s["compared"] += e["cmp"]
                     s["differ"] += e["neq"]
@@ -299,7 +353,8 @@ def scan(ctx, j):
     return nh
 
 
-OBS = dict(kernels={}, insitu={}, pvq_worst_quality_loss_ppm=0, pvq_cases=0, pvq_vectors_differ=0,
+OBS = dict(kernels={}, insitu={}, pvq_worst_quality_loss_ppm=0, pvq_cases=0, pvq_vectors_differ=0, pvq_degenerate_cases=0,
+           pvq_degenerate_projected_cases=0, pvq_degenerate_unprojected_vectors_differ=0, float_kernel_cases_with_nonfinite_data=0, extreme_signal_histories=0,
            float_pcm_max_diff_clean_16bit_units=0, float_pcm_max_diff_lossy_16bit_units=0)
 REACH = {}
 TOP = {}
@@ -328,9 +383,10 @@ def judge_job(ctx, j, confirm=True):
         if not os.path.exists(path):
             continue
         guard = 0
+        cfg = "ArchTrace.cfg"
         while True:
             guard += 1
-            acc, rej, ev = judge_file(ctx, j, path, what)
+            acc, rej, ev = judge_file(ctx, j, path, what, cfg)
             if acc:
                 break
             if ev is None or guard > 40:
@@ -339,12 +395,13 @@ def judge_job(ctx, j, confirm=True):
                 # coverage is judged over all runs together (see coverage()); a single chunk may miss a kernel
                 drop_line(path, rej)
                 continue
-            en = match_known(ev)
+            en = match_known(ev, j) if cfg == "ArchTrace.cfg" else None
             if en is not None:
+                # TLC rejected what looks like the listed finding: report it as known and judge the file again with exactly that finding tolerated
                 with LOCK:
                     ctx.kf_count[en.get("id", "?")] = ctx.kf_count.get(en.get("id", "?"), 0) + 1
-                    ctx.kf_example.setdefault(en.get("id", "?"), (en, ev))
-                drop_line(path, rej)
+                    ctx.kf_example.setdefault(en.get("id", "?"), (en, ev, replay_text_of(j, hist_id=hist_of(path, rej) if ev.get("k") == "dec" else None)))
+                cfg = "ArchTraceTol.cfg"
                 continue
             hid = hist_of(path, rej) if ev.get("k") in ("enc", "dec") else None
             txt = replay_text_of(j, hist_id=hid)
@@ -385,14 +442,31 @@ def repeatable(ctx, txt, ev):
     run_job(ctx, j)
     if j.rc != 0:
         return True
+    with LOCK:
+        scan_quiet(j)
     for path in (j.out, j.kout):
-        acc, rej, e2 = judge_file(ctx, j, path, "C15 confirm")
-        while not acc and e2 is not None and e2.get("k") == "cov":
-            drop_line(path, rej)
-            acc, rej, e2 = judge_file(ctx, j, path, "C15 confirm")
-        if not acc:
-            return True
+        cfg = "ArchTrace.cfg"
+        for _ in range(6):
+            acc, rej, e2 = judge_file(ctx, j, path, "C15 confirm", cfg)
+            if acc:
+                break
+            if e2 is not None and e2.get("k") == "cov":
+                drop_line(path, rej)
+            elif e2 is not None and cfg == "ArchTrace.cfg" and match_known(e2, j) is not None:
+                cfg = "ArchTraceTol.cfg"
+            else:
+                return True
     return False
+
+
+def scan_quiet(j):
+    """the part of scan() that the known-finding matcher needs, without touching the evidence counters"""
+    j.fir_neq = 0
+    if j.kout and os.path.exists(j.kout):
+        with open(j.kout) as f:
+            for ln in f:
+                if '"k":"is"' in ln and "celt_fir_sse4_1" in ln:
+                    j.fir_neq += json.loads(ln)["neq"]
 
 
 _exe = {}
@@ -482,7 +556,7 @@ def run(ctx):
                        "arch levels above what this CPU supports cannot be exercised (top level recorded in the evidence)",
                        "integer kernels with structured arguments (NSQ, delayed-decision NSQ, LTP codebook search, VAD, Burg) are compared on the arguments the codec passes "
                        "during the replayed histories, not on synthetic ones",
-                       "float tolerance: |SIMD - C| <= (2n+4) * 2^-24 * sum|terms| (worst-case reassociation bound; x8 for the in-place comb filter); PVQ search: K pulses and energy exact, "
+                       "float tolerance: |SIMD - C| <= (2n+4) * 2^-24 * sum|terms| (worst-case reassociation bound; the recursive in-place comb filter is measured against the largest term of the call over N/T+1 periods); PVQ search: K pulses and energy exact, "
                        "match with the input at most 0.1 lower than the portable vector's (calibrated, R3: worst observed 0.032 over the thorough tier); no tolerance is asserted on float-build PCM between levels that differ in float kernels "
                        "(the measured maximum is recorded)"]
     if ctx.replay:
@@ -506,6 +580,7 @@ def run(ctx):
     picked = sample_histories(hs, nsample, rng)
     lines = [history_line(i + 1, h, rng) for i, h in enumerate(picked)]
     lines += directed_lines(len(lines) + 1)
+    ndirected = len(directed_lines(1))
     ctx.notes["histories_replayed_per_build"] = len(lines)
     jobs = []
     nchunk = 4 if quick else 10
@@ -521,12 +596,14 @@ def run(ctx):
     if not quick:
         # sanitizer builds: synthetic shapes on exact-size heap blocks (out-of-contract accesses of a SIMD kernel are ASan reports) and a smaller whole-codec load;
         # OPUS_CHECK_ASM builds: the library's own in-kernel self-checks (assertions) under the whole-codec load
-        sub = lines[:300] + lines[-14:]
+        # (speech-like signals only: with full-scale hard-clipped input the UBSan builds stop in portable code that has nothing to do with the
+        #  dispatched kernels - e.g. a signed 64-bit overflow in src/analysis.c silk_resampler_down2_hp, fixed-point build - which is not a C15 clause)
+        sub = [sig0(x) for x in lines[:300] + lines[-ndirected:]]
         for v in ("hkfix", "hk"):
             for c in range(4):
                 jobs.append(Job(v, exe_for(v), "twins", "tw%02d" % c, lines=sub[c::4]))
                 jobs.append(Job(v, exe_for(v), "kern", "kern%02d" % c, args=[ctx.seed + 1000 + c, 4000]))
-        sub = lines[:1200] + lines[-14:]
+        sub = lines[:1200] + lines[-ndirected:]
         for v in ("hkfixca", "hkca"):
             for c in range(4):
                 jobs.append(Job(v, exe_for(v), "twins", "tw%02d" % c, lines=sub[c::4]))
@@ -543,13 +620,13 @@ def run(ctx):
     res = vf.parallel(lambda j: judge_job(ctx, j), done, nproc=8)
     ctx.notes["histories_run"] = sum(res)
     for fid, n in ctx.kf_count.items():
-        en, ev = ctx.kf_example[fid]
-        ctx.known_finding("%s [%d events, e.g. %s]" % (en["what"], n, json.dumps(ev)[:400]))
+        en, ev, rp = ctx.kf_example[fid]
+        ctx.known_finding("%s [rejected in %d event files, e.g. %s | replay: %s]" % (en["what"], n, json.dumps(ev)[:300], rp.replace("\n", " ; ")[:300]))
     if not ctx.violations:
         coverage(ctx)
     ctx.notes["cpu_top_level"] = TOP
     ctx.notes["observed"] = OBS
-    ctx.notes["tolerances"] = dict(FltBound="2n+4", CombInPlaceFactor=8, PvqTol_ppm=100000)
+    ctx.notes["tolerances"] = dict(FltBound="2n+4 (in-place comb filter: n = 8 (N/T+1), against the largest term of the call)", PvqTol_ppm=100000)
 
 
 def replay(ctx):
